@@ -532,12 +532,18 @@ def parse_miri(text):
         else:
             kind, msg = m.group(1), m.group(2)
         loc = ""
-        for l2 in lines[i + 1:i + 8]:
-            mm = re.match(r"^\s+--> (\S+)", l2)
-            if mm:
-                loc = mm.group(1)
+        inner = ""
+        for l2 in lines[i + 1:i + 60]:
+            if l2.startswith("error:"):
                 break
-        errs.append((kind, msg.strip(), loc))
+            mm = re.match(r"^\s+--> (\S+)", l2)
+            if mm and not loc:
+                loc = mm.group(1)
+            # backtrace: `= note: inside `f` at path:line:col`; the innermost frame outside std names the culprit
+            mm = re.search(r"inside `.*` at (\S+?):(\d+):\d+", l2)
+            if mm and not inner and "/rustlib/src/" not in mm.group(1) and "/harness/src/" not in mm.group(1):
+                inner = "%s:%s:0" % (mm.group(1), mm.group(2))
+        errs.append((kind, msg.strip(), inner or loc))
     return errs
 
 
@@ -608,7 +614,8 @@ def miri_judge(run, res, progs, cfg, info):
     info["error_reports"] = len(errs)
     for kind, msg, loc in errs:
         msg1 = re.sub(r"0x[0-9a-f]+|alloc\d+|\bid \d+|<\d+>|thread `[^`]*`", "_", msg)
-        msg1 = re.sub(r"\s+", " ", msg1)[:90]
+        msg1 = re.sub(r"\s+", " ", msg1)
+        msg1 = re.sub(r"^(Data race detected) between .*$", r"\1", msg1)[:70]
         if kind == "Undefined Behavior":
             run.violation("miri:UB:%s:%s" % (msg1, canon_loc(loc)),
                           {"detector": "miri", "kind": kind, "message": msg, "location": loc, "cfg": cfg,
